@@ -228,3 +228,9 @@ from .C09 import CompleteIfAble as _CIA, Finish as _Finish      # noqa: E402
 
 CONTRACTS = [StreamFactory(), StreamBody(), _variant(_AsyncScope, "C11", ("C02-", "C01-P6")), _variant(_TaskGroupExit, "C11", ("C02-",)),
              _variant(_CIA, "C11", ("",)), _variant(_Finish, "C11", ("",))]
+
+# "the consumer's own state ... unaffected": the stream's scope supplies no state, so it shares the very ScopeState object of the
+# code that enters it (`ScopeState.updated` returns `self` for an empty update) - lookups made by the generator body must not
+# write to that object (the frame clauses of C01's lookup and update)
+from .C01 import Lookup as _Lookup, Updated as _Updated      # noqa: E402
+CONTRACTS = CONTRACTS + [_variant(_Lookup, "C11", lambda n: "(frame" in n), _variant(_Updated, "C11", lambda n: "(frame" in n)]
